@@ -152,6 +152,10 @@ def seeds_index(rng):
         paths = ["exd/root.exl", "chara/a/b.mdl", "bg/ex1/x/y.lgb"]
         ents = [((sq.hash1(p) if kind == 1 else sq.hash2(p)), i % 2, 128 * (i + 1), False) for i, p in enumerate(paths)]
         out.append(("index%d" % kind, sq.index_file(kind, ents), ["paths=" + ",".join(paths + ["absent/file.x", "noslash"])]))
+    # an index with its folder table (as retail files carry it): several files per folder, several folders; looked up by path
+    paths = ["chara/a/b.mdl", "chara/a/c.mdl", "chara/a/d.tex", "bg/ffxiv/x/y.lgb", "bg/ffxiv/x/z.lgb", "exd/root.exl", "exd/item.exh"]
+    ents = [(sq.hash1(p), i % 2, 128 * (i + 1), False) for i, p in enumerate(paths)]
+    out.append(("index1-with-folder-table", sq.index_file(1, ents, folders=True), ["paths=" + ",".join(paths + ["chara/a/absent.x", "absent/file.x"])]))
     return out
 
 
